@@ -3,6 +3,7 @@ package gen
 import (
 	"fmt"
 	"math"
+	"strings"
 	"time"
 
 	"github.com/shopspring/decimal"
@@ -122,6 +123,10 @@ func Scalars() []Named {
 		N("str-empty", ""), N("str-a", "a"), N("str-abc", "abc def"), N("str-utf8", "é中😀"), N("str-bad", "a\xffb"),
 		N("str-0", "0"), N("str-1", "1"), N("str-num", "12.5"), N("str--3", "-3"), N("str-1e3", "1e3"), N("str-sp", " 7 "), N("str-hex", "0x10"), N("str-inf", "Inf"), N("str-nan", "NaN"),
 		N("str-html", "<b>&\"'</b>"),
+		// letters whose other case has another length in UTF-8, alone and followed by a little
+		N("str-kelvin", "\u212a"), N("str-kelvin-x", "\u212ax"), N("str-ohm", "\u2126"), N("str-capital-sharp-s", "\u1e9e"), N("str-dotted-I", "\u0130"), N("str-dotted-I-i", "\u0130i"),
+		N("str-sharp-s", "\u00df"), N("str-ligature", "\ufb01x"), N("str-titlecase", "\u01c5a"), N("str-long-s", "\u017f"), N("str-combining", "e\u0301 x\u0301"), N("str-one-bad-byte", "\xc3"),
+		N("str-words", "two words  and\tmore\nlines"), N("str-long", strings.Repeat("ab ", 40)),
 		N("dec", decimal.NewFromFloat(2.5)), N("dec0", decimal.Zero), N("dec-neg", decimal.NewFromInt(-4)),
 		N("defined bool true", NamedBool(true)), N("defined bool false", NamedBool(false)), N("defined string", KeyStr("text")), N("defined numeric string", KeyStr("12.5")), N("defined empty string", KeyStr("")),
 		N("defined int", KeyInt(42)), N("defined float64", NamedF64(2.5)), N("defined float32", NamedF32(0.5)),
@@ -154,6 +159,13 @@ func Containers() []Named {
 	m := map[string]stick.Value{"a": 1, "b": "two"}
 	return []Named{
 		N("[]int{}", []int{}), N("[]int nil", nilSlice), N("[]int{10,20,30}", sl), N("*[]int", psl), N("**[]int", ppsl),
+		N("[]int(20)", func() []int {
+			l := make([]int, 20)
+			for i := range l {
+				l[i] = i + 1
+			}
+			return l
+		}()), N("[]string(11)", strings.Fields("a b c d e f g h i j k")),
 		N("[]string", []string{"x", "y"}), N("[]Value", []stick.Value{1, "s", nil, true}), N("[]float64", []float64{1.5, 2.5}), N("[3]int", [3]int{7, 8, 9}), N("*[3]int", &[3]int{7, 8, 9}), N("[0]int", [0]int{}),
 		N("[][]int", [][]int{{1}, {2, 3}}), N("[]Thing", []Thing{th}), N("[]*Thing", []*Thing{&th, nil}), N("[]interface{}", []interface{}{nil, 1}),
 		N("map[string]Value", m), N("*map[string]Value", &m), N("map[string]int nil", nilMap), N("map[string]Value nil", nilValMap), N("[]Value nil", nilValSlice), N("map[string]int{}", map[string]int{}), N("map[string]string", map[string]string{"k": "v", "1": "one"}),
